@@ -28,7 +28,14 @@ func Run(m *mon.M) {
 	m.Require("loop.vertices_at_index_cell_centre", 50)
 	m.Require("polygon.probes", 5000)
 	maxN := m.N(600, 10000)
-	m.Stream("loop", m.N(5000, 250000), func(c *mon.Case) { loopCase(c, maxN) })
+	// thorough: loops of up to 10^4 vertices in one case out of twelve (each costs ~1 s of exact arithmetic), 1200 otherwise
+	m.Stream("loop", m.N(5000, 250000), func(c *mon.Case) {
+		n := maxN
+		if n > 1200 && c.I%12 != 0 {
+			n = 1200
+		}
+		loopCase(c, n)
+	})
 	m.Stream("polygon", m.N(2000, 100000), polygonCase)
 	m.Stream("tiling", m.N(600, 20000), func(c *mon.Case) { tilingCase(c, m.N(2, 3)) })
 }
